@@ -28,6 +28,7 @@ Print Assumptions C14_driver_discipline.
 Theorem C14_failed_unit_output_untouched : forall md has_o ks i p, In p (reqs md has_o i ks) ->
   p = PStdout \/ (has_o = true /\ p = POpt) \/ (exists j, i <= j < i + length ks /\ p = POut j).
 Proof. exact reqs_bound. Qed.
+Print Assumptions C14_failed_unit_output_untouched.
 
 (* concurrent invocations whose outputs and (fresh, mkstemp) temporaries are disjoint see, in
    ANY interleaving of their file-system events, exactly what they see when run alone *)
@@ -46,3 +47,4 @@ Example C14_nonvacuous :
     (1, [EMkTmp 0; EMkTmp 1; ESpawn (Cc1 0 (Some (PTmp 0))) true; ESpawn (As (inl (PTmp 0)) (PTmp 1)) true;
          EMkTmp 2; EMkTmp 3; ESpawn (Cc1 1 (Some (PTmp 2))) false; EUnlink 0; EUnlink 1; EUnlink 2; EUnlink 3]).
 Proof. vm_compute. reflexivity. Qed.
+Print Assumptions C14_nonvacuous.
